@@ -450,45 +450,51 @@ pub fn cluster(g: &G, ng: &NormGraph, out: &mut Outcome) {
     }
 }
 
-/// C12 on the huge graph: blocks of 1000 consecutive positions.
+/// C12 on the huge graph: blocks of 1000 consecutive positions (67 communities) and blocks of 128
+/// (516 communities: the library's cost is proportional to communities x (nodes + edges), about
+/// 8e7 here).
 pub fn modularity(g: &G, ng: &NormGraph, out: &mut Outcome) {
     use graphrs::algorithms::community::partitions;
     let n = ng.n;
-    let block = |i: usize| i / 1000;
-    let nb = block(n - 1) + 1;
-    let mut fam: Vec<HashSet<String>> = vec![HashSet::new(); nb];
-    for i in 0..n {
-        fam[block(i)].insert(ng.names[i].clone());
-    }
-    out.api_calls += 2;
-    out.check(partitions::is_partition(g, &fam), "is_partition/eq_set_algebra/huge_graph_rejected_true_partition", || "false".to_string());
-    for (weighted, res) in [(false, 1.0), (true, 1.5)] {
-        let wt = |w: f64| if weighted { w } else { 1.0 };
-        let m: f64 = ng.edges.iter().map(|e| wt(e.2)).sum();
-        let (mut lc, mut outc, mut inc) = (vec![0.0; nb], vec![0.0; nb], vec![0.0; nb]);
-        for (i, j, w) in &ng.edges {
-            if block(*i) == block(*j) {
-                lc[block(*i)] += wt(*w);
-            }
-            outc[block(*i)] += wt(*w);
-            inc[block(*j)] += wt(*w);
+    for (size, settings) in [(1000usize, vec![(false, 1.0), (true, 1.5)]), (128, vec![(true, 1.0)])] {
+        let block = |i: usize| i / size;
+        let nb = block(n - 1) + 1;
+        let mut fam: Vec<HashSet<String>> = vec![HashSet::new(); nb];
+        for i in 0..n {
+            fam[block(i)].insert(ng.names[i].clone());
         }
-        let want: f64 = (0..nb).map(|c| if ng.directed { lc[c] / m - res * outc[c] * inc[c] / (m * m) } else { lc[c] / m - res * ((outc[c] + inc[c]) / (2.0 * m)).powi(2) }).sum();
         out.api_calls += 1;
-        match guard(|| partitions::modularity(g, &fam, weighted, Some(res))) {
-            Err(p) => out.fail(format!("modularity/panic/{}", panic_class(&p)), p),
-            Ok(Err(e)) => out.fail("modularity/true_partition_rejected/huge_graph", kind_of(&e)),
-            Ok(Ok(q)) => {
-                out.check(approx(q, want, 1e-9, 1e-12), "modularity/eq_formula/huge_graph", || format!("{} want {} (weighted {}, resolution {})", q, want, weighted, res));
+        out.check(partitions::is_partition(g, &fam), "is_partition/eq_set_algebra/huge_graph_rejected_true_partition", || "false".to_string());
+        for (weighted, res) in settings {
+            let wt = |w: f64| if weighted { w } else { 1.0 };
+            let m: f64 = ng.edges.iter().map(|e| wt(e.2)).sum();
+            let (mut lc, mut outc, mut inc) = (vec![0.0; nb], vec![0.0; nb], vec![0.0; nb]);
+            for (i, j, w) in &ng.edges {
+                if block(*i) == block(*j) {
+                    lc[block(*i)] += wt(*w);
+                }
+                outc[block(*i)] += wt(*w);
+                inc[block(*j)] += wt(*w);
+            }
+            let want: f64 = (0..nb).map(|c| if ng.directed { lc[c] / m - res * outc[c] * inc[c] / (m * m) } else { lc[c] / m - res * ((outc[c] + inc[c]) / (2.0 * m)).powi(2) }).sum();
+            out.api_calls += 1;
+            match guard(|| partitions::modularity(g, &fam, weighted, Some(res))) {
+                Err(p) => out.fail(format!("modularity/panic/{}", panic_class(&p)), p),
+                Ok(Err(e)) => out.fail("modularity/true_partition_rejected/huge_graph", kind_of(&e)),
+                Ok(Ok(q)) => {
+                    out.check(approx(q, want, 1e-9, 1e-12), "modularity/eq_formula/huge_graph", || format!("{} want {} ({} communities, weighted {}, resolution {})", q, want, nb, weighted, res));
+                }
             }
         }
+        if size == 1000 {
+            // a node listed twice and one omitted
+            let mut bad = fam.clone();
+            bad[0].insert(ng.names[n - 1].clone());
+            bad[nb - 1].remove(&ng.names[n - 2]);
+            out.api_calls += 1;
+            out.check(!partitions::is_partition(g, &bad), "is_partition/eq_set_algebra/huge_graph_accepted_overlap_plus_omission", || "true".to_string());
+        }
     }
-    // a node listed twice and one omitted
-    let mut bad = fam.clone();
-    bad[0].insert(ng.names[n - 1].clone());
-    bad[nb - 1].remove(&ng.names[n - 2]);
-    out.api_calls += 1;
-    out.check(!partitions::is_partition(g, &bad), "is_partition/eq_set_algebra/huge_graph_accepted_overlap_plus_omission", || "true".to_string());
 }
 
 /// C15 on the huge graph.
